@@ -271,7 +271,9 @@ class TmgrRig(object):
         return self._call('Submit', lambda: self.c.work(docs), batch=uids)
 
     def add(self, pairs):
-        pairs = sorted([list(x) for x in pairs], key=lambda x: self.pilots.index(x[0]))
+        '''pairs: [pid, state of the pilot document], in message order.  The command
+           may name pilots which are added already (half-valid command)'''
+        pairs = [list(x) for x in pairs]
         docs  = [self.pilot_doc(p, s) for p, s in pairs]
         msg   = {'cmd': 'add_pilots', 'arg': {'pilots': docs, 'tmgr': OWNER}}
         for p, _ in pairs:
@@ -279,10 +281,13 @@ class TmgrRig(object):
         return self._call('AddPilots', lambda: self.c.control_cb(rpc.CONTROL_PUBSUB, msg), add=pairs)
 
     def remove(self, pids):
-        pids = [p for p in self.pilots if p in set(pids)]
+        '''pids in message order; the command may name pilots which are not added
+           (never added, or removed already): those keep their role'''
+        pids = list(pids)
         msg  = {'cmd': 'remove_pilots', 'arg': {'pids': list(pids), 'tmgr': OWNER}}
         for p in pids:
-            self.grole[p] = 'removed'
+            if self.grole[p] == 'added':
+                self.grole[p] = 'removed'
         return self._call('RemovePilots', lambda: self.c.control_cb(rpc.CONTROL_PUBSUB, msg), pids=pids)
 
     def pstate(self, pid, state):
@@ -328,12 +333,13 @@ class TmgrRig(object):
         return self.trace()
 
     # --------------------------------------------------------------------------
-    # seeded random environment (respects what the task manager guarantees: a pilot
-    # is not added twice, only added pilots are removed, one final notification
-    # per forwarded task).  The pilot document of an add message carries ANY state:
+    # seeded random environment: one final notification per forwarded task; most
+    # commands respect what the task manager facade guarantees (a pilot is not added
+    # twice, only added pilots are removed), with probability p_half a command also
+    # names a pilot it cannot be applied to, in any position.  The pilot document of an add message carries ANY state:
     # control and state messages travel on different channels, so the document may
     # be older or newer than what the notifications said, or contradict it.
-    def run_random(self, seed, nops=14, max_batch=3):
+    def run_random(self, seed, nops=14, max_batch=3, p_half=0.15):
         rng  = random.Random(seed)
         ops  = []
         fin  = set()
@@ -347,6 +353,7 @@ class TmgrRig(object):
             if new  : acts += ['submit'] * 3
             if nadd : acts += ['add'] * 3
             if added: acts += ['remove']
+            half = rng.random() < p_half        # a command naming pilots it cannot apply to
             if live : acts += ['tstates'] * 3
             acts += ['pstate'] * 2 + ['noise']
             k = rng.choice(acts)
@@ -354,9 +361,16 @@ class TmgrRig(object):
                 op = ['submit', rng.sample(new, rng.randint(1, min(max_batch, len(new))))]
             elif k == 'add':
                 ps = rng.sample(nadd, rng.randint(1, min(2, len(nadd))))
+                if half and added:
+                    ps = ps[:1] + rng.sample(added, 1)
+                    rng.shuffle(ps)
                 op = ['add', [[p, self._add_state(rng, st['pst'][p])] for p in ps]]
             elif k == 'remove':
-                op = ['remove', rng.sample(added, rng.randint(1, min(2, len(added))))]
+                ps = rng.sample(added, rng.randint(1, min(2, len(added))))
+                if half and nadd:
+                    ps = ps[:1] + rng.sample(nadd, 1)
+                    rng.shuffle(ps)
+                op = ['remove', ps]
             elif k == 'tstates':
                 b  = rng.sample(live, rng.randint(1, min(max_batch, len(live))))
                 op = ['tstates', b, rng.choice([rps.DONE, rps.DONE, rps.FAILED, rps.CANCELED,
@@ -420,6 +434,7 @@ class _ILock(object):
     def release(self):
         self.depth -= 1
         if self.depth <= 0:
+            self.probe.sections[self.owner] = self.probe.sections.get(self.owner, 0) + 1
             self.owner, self.depth = None, 0
 
     def __enter__(self):
@@ -432,9 +447,19 @@ class _ILock(object):
 
 class LockProbe(object):
 
-    def __init__(self, policy, init_wait=0, prefix=()):
+    def __init__(self, policy, init_wait=0, prefix=(), mode='add'):
+        '''mode 'add'   : work([t2]) against control_cb(add_pilots [p1]); init_wait
+                          tasks were parked before
+           mode 'remove': p1 and p2 are added; work([t2]) against
+                          control_cb(remove_pilots [p1]).  p1 counts as removed once
+                          the first critical section of control_cb (the role flip)
+                          is over; a task bound to p1 after that is `late` '''
         self.policy, self.init_wait, self.prefix = policy, init_wait, list(prefix)
-        self.rig = TmgrRig(policy, ['t1', 't2', 't3'], ['p1'], pcores={'p1': 8}, echo=False)
+        self.mode  = mode
+        self.rig = TmgrRig(policy, ['t1', 't2', 't3'], ['p1', 'p2'], pcores={'p1': 8, 'p2': 8},
+                           echo=False)
+        self.sections = {}        # thread -> critical sections completed
+        self.late     = []        # tasks bound to p1 after it was marked removed
         self.names = ['W', 'C']
         self.go    = {n: mt.Semaphore(0) for n in self.names}
         self.ctl   = mt.Semaphore(0)
@@ -477,10 +502,22 @@ class LockProbe(object):
         with rig._patches():
             if self.init_wait:
                 c.work([rig.task_doc('t3')])            # parked earlier: no pilot yet
+            if self.mode == 'remove':
+                rig.add([['p1', 'PMGR_ACTIVE'], ['p2', 'PMGR_ACTIVE']])
+                rig.cur_fwd = []
+                on_fwd = rig.on_forward
+                def _on_forward(task):
+                    on_fwd(task)
+                    if task.get('pilot') == 'p1' and self.sections.get('C', 0) >= 1:
+                        self.late.append(task['uid'])
+                rig.on_forward = _on_forward
             c._pilots_lock = _ILock(self, 'pilots_lock')
             c._wait_lock   = _ILock(self, 'wait_lock')
-            msg = {'cmd': 'add_pilots', 'arg': {'pilots': [rig.pilot_doc('p1', 'PMGR_ACTIVE')],
-                                                'tmgr': OWNER}}
+            if self.mode == 'remove':
+                msg = {'cmd': 'remove_pilots', 'arg': {'pids': ['p1'], 'tmgr': OWNER}}
+            else:
+                msg = {'cmd': 'add_pilots', 'arg': {'pilots': [rig.pilot_doc('p1', 'PMGR_ACTIVE')],
+                                                    'tmgr': OWNER}}
             ths = [self._thread('W', lambda: c.work([rig.task_doc('t2')])),
                    self._thread('C', lambda: c.control_cb(rpc.CONTROL_PUBSUB, msg))]
             for t in ths:
@@ -518,18 +555,20 @@ class LockProbe(object):
         for f in rig.cur_fwd:
             cnt[f['t']] = cnt.get(f['t'], 0) + 1
         return {'policy': self.policy, 'init_wait': self.init_wait, 'deadlock': deadlock,
+                'mode': self.mode, 'late': list(self.late),
+                'bound': {f['t']: f['p'] for f in rig.cur_fwd},
                 'schedule': [p for p, _ in self.taken], 'steps': self.steps,
                 'wait': st['wait'], 'pids': st['pids'], 'fwd': cnt, 'errors': dict(self.err),
                 'blocked': {n: (self.want[n].name if self.want[n] else 'none') for n in self.names}
                            if deadlock else {}, 'held': held}
 
 
-def lock_schedules(policy, init_wait, limit=500):
-    '''enumerate all schedules of work() against control_cb(add_pilots)'''
+def lock_schedules(policy, init_wait, limit=500, mode='add'):
+    '''enumerate all schedules of work() against control_cb(add_pilots / remove_pilots)'''
     out, todo, seen = [], [[]], set()
     while todo and len(out) < limit:
         prefix = todo.pop()
-        p   = LockProbe(policy, init_wait, prefix)
+        p   = LockProbe(policy, init_wait, prefix, mode=mode)
         res = p.run()
         key = tuple(res['schedule'])
         if key in seen:
